@@ -95,8 +95,11 @@ def check(case):
                 require(abs(q0 - q1) <= 1e-12, "easy:auc-axes",
                         lambda: f"{ctx}: auc({', '.join(map(repr, lims))}, x_axis={xa}, y_axis={ya}) virtual {q0!r} "
                                 f"materialised {q1!r}")
-        for mt in METRICS:
-            rel = relevant_scores(mt, pos, neg)
+        # every rate under its primary and under its alias name
+        alias_of = {"tar": "tpr", "frr": "fnr", "trr": "tnr", "far": "fpr", "acceptance_rate": "topr",
+                    "rejection_rate": "tonr"}
+        for mt in list(METRICS) + list(alias_of):
+            rel = relevant_scores(alias_of.get(mt, mt), pos, neg)
             rmin, rmax = min(rel), max(rel)
             # one target array object is shared by all calls; which object is asked first alternates
             if case.get("virtual_first", False):
